@@ -6,7 +6,7 @@ from sim import core, values, world
 PROP = "C17"
 LEVEL = "exploration"
 BUDGET = {"quick": 300, "thorough": 1700}
-NCASES = {"quick": 1500, "thorough": 25000}
+NCASES = {"quick": 3000, "thorough": 40000}
 RULE = ("chains p0..pk (k<=4) of memento functions returning InMemoryPartition or OnDiskPartition with 0-5 string keys (from a "
         "6-letter alphabet, so levels overlap) -> supported values (scalars, lists, dicts, numpy arrays, frames, nested "
         "partitions); p_i declares the result of p_{i-1}(x) as merge parent (or not); histories of calls of arbitrary levels, "
